@@ -2,6 +2,8 @@ import TpmVerif.Base.Trace
 import TpmVerif.Model.Tpm12Core
 import TpmVerif.Model.Tpm12Nv
 import TpmVerif.Model.Tpm12Counter
+import TpmVerif.Model.Tpm12Flags
+import TpmVerif.Model.Tpm12Auth
 import TpmVerif.Spec.Tpm12Pcr
 /-! Correspondence checker for C20 traces: replays every traced operation (TPM_Extend, TPM_PCRRead, TPM_PCR_Reset,
     TPM_SHA1Start/Update/Complete/CompleteExtend, TPM_IO_Hash_*, TPM_IO_TpmEstablished_*, Startup, power cycle,
@@ -14,6 +16,7 @@ structure CS where
   st : St := powerOn false TPM_BUFFER_MAX
   nv : Nv.St := Nv.fresh
   ctr : Counter.St := {}
+  fl : Flags.St := Flags.fresh
   rep : Report := {}
   line : Nat := 0
   live : Bool := false
@@ -72,9 +75,46 @@ def sigOf (name : String) : String :=
   | "estget" | "estreset" => "SPEC[tpm-established] "
   | _ => ""
 
+/-! ### authorization, judged from the wire bytes by `Model.Tpm12.Auth` -/
+
+structure AuthVerdict where
+  accept : Bool                    -- the TPM must accept the request's HMAC
+  response : Option Bool := none   -- the answer's HMAC verifies (when the answer carried one)
+  corrupt : Nat := 0               -- what the client says it did to the request
+
+/-- `none` when the line carries no authorization bytes -/
+def authVerdict (l : Line) : Option AuthVerdict :=
+  if (l.get? "ane").isNone then none else
+  let key := if (l.get? "aes").isSome then Auth.osapSecret (l.bytes "aes") (l.bytes "aneo") (l.bytes "anoo") else l.bytes "ak"
+  let req : Auth.Request := { key := key, nonceEven := l.bytes "ane", pd := l.bytes "apd", nonceOdd := l.bytes "ano",
+                              cont := l.nat "ac" ≠ 0, mac := l.bytes "amac" }
+  let rsp := if (l.get? "rmac").isNone then none
+             else some (Auth.responseMac key (l.bytes "rpd") (l.bytes "rne") (l.bytes "ano") (l.nat "rcont" ≠ 0) == l.bytes "rmac")
+  some { accept := Auth.accepts req, response := rsp, corrupt := l.nat "corrupt" }
+
+/-- the model-free clauses of the property about one authorized command -/
+def judgeAuth (c : CS) (l : Line) (what : String) : CS :=
+  match authVerdict l with
+  | none => c
+  | some v =>
+    let rc := l.nat "rc"
+    let c := branch c s!"auth/{if (l.get? "aes").isSome then "osap" else "oiap"}/corrupt={v.corrupt}/accept={v.accept}/rc={if rc = 0 then "ok" else if rc = TPM_AUTHFAIL then "authfail" else "other"}/rsp={match v.response with | none => "-" | some b => toString b}"
+    let c := if (v.corrupt = 0) ≠ v.accept then
+        mism c s!"internal: {what}: the client says corrupt={v.corrupt} but the Lean HMAC check says accept={v.accept}" else c
+    let c := if !v.accept && rc = 0 then
+        mism c s!"SPEC[auth-accepted-wrong-hmac] {what}: the TPM accepted a request whose HMAC is not HMAC(key, SHA1(ordinal||params) || nonceEven || nonceOdd || continue) (client corruption {v.corrupt})" else c
+    let c := if v.accept && (rc = TPM_AUTHFAIL || rc = TPM_AUTH2FAIL) then
+        mism c s!"SPEC[auth-refused-correct-hmac] {what}: the TPM answered {rc} to a request whose HMAC is correct" else c
+    let c := if rc = 0 && v.response = some false then
+        mism c s!"SPEC[auth-response-hmac] {what}: the response HMAC is not HMAC(key, SHA1(rc||ordinal||outParams) || new nonceEven || nonceOdd || continue)" else c
+    if rc = 0 && v.response.isNone then mism c s!"SPEC[auth-response-hmac] {what}: a successful authorized command answered without an authorization trailer" else c
+
 /-! ### NV storage lines (`nv name=...`) -/
 
 def parseTag (l : Line) : Nv.Tag :=
+  match authVerdict l with
+  | some v => .auth1 v.accept
+  | none =>
   match l.str "tag" with
   | "auth1ok" => .auth1 true
   | "auth1bad" => .auth1 false
@@ -141,6 +181,8 @@ def stepNv (c : CS) (l : Line) : CS :=
   let name := l.str "name"
   let c := { c with rep := { c.rep with events := c.rep.events + 1 } }
   let c := if l.nat "ret" ≠ 0 then mism c s!"{name}: TPMLIB_Process returned {l.nat "ret"}" else c
+  let c := judgeAuth c l s!"{name} idx={l.nat "idx"}"
+  let c := { c with fl := Flags.invalidateSaved c.fl }
   -- the failed state (entered through the TIS error routes, which only the PCR model follows) is one state of one TPM
   let c := { c with nv := { c.nv with failed := c.nv.failed || c.st.failed } }
   -- for the PCR/SHA-1 model an NV ordinal is "any other ordinal"
@@ -188,7 +230,9 @@ def stepNv (c : CS) (l : Line) : CS :=
 /-! ### monotonic counter lines (`ctr name=...`) -/
 
 def parseCtr (l : Line) : Option Counter.Op :=
-  let ok := l.nat "ok" ≠ 0
+  let ok := match authVerdict l with
+    | some v => v.accept
+    | none => l.nat "ok" ≠ 0
   match l.str "name" with
   | "create" => some (.create ok)
   | "increment" => some (.increment (l.nat "id") ok)
@@ -206,6 +250,8 @@ def stepCtr (c : CS) (l : Line) : CS :=
   let name := l.str "name"
   let c := { c with rep := { c.rep with events := c.rep.events + 1 } }
   let c := if l.nat "ret" ≠ 0 then mism c s!"{name}: TPMLIB_Process returned {l.nat "ret"}" else c
+  let c := judgeAuth c l s!"counter {name} id={l.nat "id"}"
+  let c := { c with fl := Flags.invalidateSaved c.fl }
   -- for the other two models a counter ordinal is "any other ordinal" (IncrementCounter etc. store the permanent state)
   let c := { c with st := (Tpm12.Core.stepCmd Sha1.sha1 c.st .other).1, nv := (Nv.step c.nv .other).1 }
   let c := if l.nat "stores" > 0 then { c with nv := (Nv.step c.nv .stored).1 } else c
@@ -224,21 +270,113 @@ def stepCtr (c : CS) (l : Line) : CS :=
         mism c s!"SPEC[counter-write-through] {name} id={id}: model stored={obs.stored}, storage callback calls={l.nat "stores"}" else c
     if l.nat "rc" = 0 && l.str "hmac" = "0" then mism c s!"SPEC[counter-response-hmac] {name} id={id}: the response HMAC does not verify" else c
 
+/-! ### flag automaton lines (`fl name=...`) -/
+
+def parseProbe (p : String) : Option Flags.Probe :=
+  match p with
+  | "pcrread" => some .pcrRead
+  | "getrandom" => some .getRandom
+  | "getticks" => some .getTicks
+  | "extend" => some .extend
+  | "oiap" => some .oiap
+  | "nvreaddir" => some .nvReadDir
+  | "getcapflags" => some .getCapFlags
+  | _ => none
+
+def parseFl (l : Line) : Option Flags.Op :=
+  let hw := l.nat "hw" ≠ 0
+  let v := l.nat "v"
+  let ok := match authVerdict l with
+    | some a => a.accept
+    | none => false
+  match l.str "name" with
+  | "startup" => some (.startup (l.nat "st"))
+  | "tscpp" => some (.tscPP v)
+  | "physicalenable" => some (.physicalEnable hw)
+  | "physicaldisable" => some (.physicalDisable hw)
+  | "physicalsetdeactivated" => some (.physicalSetDeactivated hw (v ≠ 0))
+  | "settempdeactivated" => some (.setTempDeactivated hw)
+  | "setownerinstall" => some (.setOwnerInstall hw (v ≠ 0))
+  | "ownersetdisable" => some (.ownerSetDisable ok (v ≠ 0))
+  | "createek" => some .createEk
+  | "takeownership" => some (.takeOwnership ok)
+  | "ownerclear" => some (.ownerClear ok)
+  | "forceclear" => some (.forceClear hw)
+  | "disableownerclear" => some (.disableOwnerClear ok)
+  | "disableforceclear" => some .disableForceClear
+  | "savestate" => some .saveState
+  | "probe" => (parseProbe (l.str "p")).map .probe
+  | _ => none
+
+def flState (s : Flags.St) : String :=
+  let b (x : Bool) : String := if x then "1" else "0"
+  s!"dis={b s.mem.disable}/deact={b s.sc.deactivated}/own={b s.mem.owner}/post={b s.postInit}/fail={b s.failed}"
+
+def stepFl (c : CS) (l : Line) : CS :=
+  let name := l.str "name"
+  let c := { c with rep := { c.rep with events := c.rep.events + 1 } }
+  let c := if l.nat "ret" ≠ 0 then mism c s!"{name}: TPMLIB_Process returned {l.nat "ret"}" else c
+  -- for the other models a flag ordinal is "any other ordinal"
+  let c := { c with st := (Tpm12.Core.stepCmd Sha1.sha1 c.st .other).1, nv := (Nv.step c.nv .other).1 }
+  let c := if l.nat "stores" > 0 then { c with nv := (Nv.step c.nv .stored).1 } else c
+  if name = "flags" then
+    -- TPM_PERMANENT_FLAGS / TPM_STCLEAR_FLAGS / TPM_CAP_PROP_OWNER as the TPM reports them
+    let s := Flags.invalidateSaved c.fl
+    let c := { c with fl := s }
+    let want := Flags.checkState s Flags.gateNone
+    let c := if l.nat "rc" ≠ want || l.nat "rcv" ≠ want || l.nat "rco" ≠ want then
+        mism c s!"SPEC[flags-getcapability] GetCapability(flags) rc model={want} impl={l.nat "rc"}/{l.nat "rcv"}/{l.nat "rco"}" else c
+    if want ≠ 0 then c else
+    let perm := l.bytes "perm"
+    let vol := l.bytes "vol"
+    let pf (k : Nat) : UInt8 := perm.getD (2 + k) 0xee
+    let vf (k : Nat) : UInt8 := vol.getD (2 + k) 0xee
+    let wantP := [bit s.mem.disable, bit s.mem.ownership, bit s.mem.deactivated, bit s.mem.disableOwnerClear, bit s.mem.ppLife, bit s.mem.ppHw, bit s.mem.ppCmd]
+    let gotP := [pf 0, pf 1, pf 2, pf 4, pf 6, pf 7, pf 8]
+    let wantV := [bit s.sc.deactivated, bit s.sc.disableForceClear, bit s.sc.pp, bit s.sc.ppLock]
+    let gotV := [vf 0, vf 1, vf 2, vf 3]
+    let c := branch c s!"flags/{flState s}/ownership={s.mem.ownership}/pdeact={s.mem.deactivated}/doc={s.mem.disableOwnerClear}/dfc={s.sc.disableForceClear}"
+    let c := if wantP ≠ gotP then mism c s!"SPEC[flags-permanent] (disable, ownership, deactivated, disableOwnerClear, ppLifetimeLock, ppHWEnable, ppCMDEnable): model={hexOfBytes wantP} impl={hexOfBytes gotP}" else c
+    let c := if wantV ≠ gotV then mism c s!"SPEC[flags-stclear] (deactivated, disableForceClear, physicalPresence, physicalPresenceLock): model={hexOfBytes wantV} impl={hexOfBytes gotV}" else c
+    if l.nat "own" ≠ (if s.mem.owner then 1 else 0) then mism c s!"SPEC[flags-owner] TPM_CAP_PROP_OWNER model={s.mem.owner} impl={l.nat "own"}" else c
+  else
+  let c := judgeAuth c l s!"{name}"
+  match parseFl l with
+  | none => mism c s!"unknown flag op {name}"
+  | some op =>
+    let pre := match op with
+      | .startup _ => c.fl
+      | _ => Flags.invalidateSaved c.fl
+    let (fl', obs) := Flags.step c.fl op
+    let c := branch c s!"fl-{name}/{l.str "p"}/v={l.nat "v"}{l.str "st"}/{flState pre}/pres={Flags.presence pre (l.nat "hw" ≠ 0)}/rc={obs.rc}"
+    let c := { c with fl := fl' }
+    -- the other models follow the events they share
+    let c := match op with
+      | .startup t => { c with st := (Tpm12.Core.stepCmd Sha1.sha1 c.st (.startup t)).1, nv := (Nv.step c.nv (.startup t)).1,
+                               ctr := (Counter.step c.ctr (.startup t)).1 }
+      | _ => c
+    -- an OIAP probe may find the session table full (sessions of refused commands): not a matter of the flags
+    if name = "probe" && l.str "p" = "oiap" && l.nat "rc" = TPM_RESOURCES && obs.rc = 0 then c else
+    let c := if l.nat "rc" ≠ obs.rc then mism c s!"SPEC[flags-rc] {name} {l.str "p"} v={l.nat "v"} st={l.nat "st"} in state {flState pre}: rc model={obs.rc} impl={l.nat "rc"}" else c
+    if l.nat "rc" = obs.rc && name ≠ "probe" && obs.stored ≠ decide (l.nat "stores" > 0) then
+      mism c s!"SPEC[flags-write-through] {name}: model stored={obs.stored}, storage callback calls={l.nat "stores"}" else c
+
 def step (c : CS) (l : Line) : CS :=
   let c := { c with line := c.line + 1 }
   match l.kind with
   | "hist" => { c with live := false }
+  | "fl" => if c.live then stepFl c l else c
   | "ctr" => if c.live then stepCtr c l else c
-  | "power" => { c with st := powerOn false (l.nat "maxbuf"), nv := Nv.fresh, ctr := {}, live := true }
+  | "power" => { c with st := powerOn false (l.nat "maxbuf"), nv := Nv.fresh, ctr := {}, fl := Flags.fresh, live := true }
   | "restart" =>
       let c := branch c s!"restart/ret={l.nat "ret"}/failed={c.st.failed}/established={c.st.established}/saved={c.nv.saved.isSome}/nvlocked={c.nv.mem.nvLocked}"
       let c := if l.nat "ret" ≠ 0 then mism c s!"MainInit after Terminate returned {l.nat "ret"}" else c
       { c with st := { powerOn c.st.established (l.nat "maxbuf") with saved := c.st.saved }, nv := Nv.powerCycle c.nv,
-               ctr := (Counter.step c.ctr .powerCycle).1 }
+               ctr := (Counter.step c.ctr .powerCycle).1, fl := Flags.powerCycle c.fl }
   | "resume" =>
       -- suspend/resume through the state blobs must preserve everything this model tracks
       let c := branch c s!"resume/ret={l.nat "ret"}/thread={c.st.sha.isSome}/tis={c.st.tis.isSome}/saved={c.nv.saved.isSome}"
-      let c := { c with nv := Nv.resume c.nv }
+      let c := { c with nv := Nv.resume c.nv, fl := Flags.resume c.fl }
       if l.nat "ret" ≠ 0 then mism c s!"SPEC[resume] GetState/SetState/MainInit returned {l.nat "ret"}" else c
   | "nv" => if c.live then stepNv c l else c
   | "san" =>
@@ -252,6 +390,9 @@ def step (c : CS) (l : Line) : CS :=
         let c := { c with rep := { c.rep with events := c.rep.events + 1 } }
         let (st', obs) := Tpm12.Core.stepCmd Sha1.sha1 c.st op
         let c := { c with st := st' }
+        let c := match op with
+          | .startup t => { c with fl := (Flags.step c.fl (.startup t)).1 }
+          | _ => if op.isOrdinal then { c with fl := Flags.invalidateSaved c.fl } else c
         -- for the NV model: Startup acts on the volatile NV flags; any other ordinal only invalidates the saved state
         let c := match op with
           | .startup t =>
